@@ -886,6 +886,104 @@ pub fn junction_cases(th: bool) -> Vec<(String, Case)> {
     out
 }
 
+/// Release-role family: an older (non-head) segment that does not touch any other mapping becomes wholly
+/// free, and its single free chunk has a given ROLE - it sits in a tree bin, or it is dv (a small request
+/// split it while the small bins and dv were empty, freeing that block made dv span the whole segment), or
+/// (control) dv is only part of it because the small block is still live - when a release pass runs, by
+/// either TRIGGER: a free that pushes top over the trim threshold, or the release_checks countdown
+/// expiring on a tree-binned free.  Then two small requests and a large one in every order, free all.
+/// Returns (class name, index of the trigger operation, case).
+pub fn release_role_cases() -> Vec<(String, usize, Case)> {
+    let mut v = Vec::new();
+    for (pname, script, default) in [
+        ("all-D", vec![], Policy::Disjoint),
+        ("all-U", vec![], Policy::DisjointUp),
+        ("alternating-D-U", (0..12).map(|i| if i % 2 == 0 { Policy::Disjoint } else { Policy::DisjointUp }).collect::<Vec<_>>(), Policy::Disjoint),
+    ] {
+        for first_i in 0..2 {
+            for small in [24usize, 200] {
+                for role in ["in-tree-bin", "is-dv", "control:dv-is-part-of-it"] {
+                    if role == "in-tree-bin" && small != 24 {
+                        continue;
+                    }
+                    for trigger in ["trim", "countdown"] {
+                        // countdown trigger: its own two blocks (30 000 bytes each) are larger than what the first segment has
+                        // left behind its block (< 28 KiB), so they are carved from the head segment's top (200 000-byte block there)
+                        let first = if trigger == "trim" { [300_000usize, 70_000][first_i] } else { [300_000usize, 105_000][first_i] };
+                        for perm in permutations(3) {
+                            let mut b = B::new(Slots::default());
+                            let a = b.m(first, 8); // first segment
+                            let keep = b.m(if trigger == "trim" { 300_000 } else { 200_000 }, 8); // second segment: the head from now on
+                            let (mut c, mut pin) = (0, 0);
+                            if trigger == "countdown" {
+                                c = b.m(30_000, 8);
+                                pin = b.m(30_000, 8);
+                            }
+                            b.f(a); // the first segment is one free tree chunk now
+                            let mut s_live = None;
+                            if role != "in-tree-bin" {
+                                let s = b.m(small, 8); // splits it, the remainder becomes dv
+                                if role == "is-dv" {
+                                    b.f(s); // dv spans the whole segment
+                                } else {
+                                    s_live = Some(s);
+                                }
+                            }
+                            let trigger_at;
+                            let mut countdown = None;
+                            if trigger == "trim" {
+                                let x = b.m(3 * MIB, 8);
+                                trigger_at = b.ops.len();
+                                b.f(x);
+                            } else {
+                                trigger_at = b.ops.len();
+                                countdown = Some((trigger_at, 1));
+                                b.f(c);
+                            }
+                            let reqs = [24usize, 40, 200_000];
+                            let mut got = Vec::new();
+                            for &i in &perm {
+                                got.push(b.m(reqs[i], 8));
+                            }
+                            for g in got {
+                                b.f(g);
+                            }
+                            if trigger == "countdown" {
+                                b.f(pin);
+                            }
+                            if let Some(s) = s_live {
+                                b.f(s);
+                            }
+                            b.f(keep);
+                            let name = format!("release-pass({trigger}):wholly-free-older-segment-{role}");
+                            v.push((
+                                name.clone(),
+                                trigger_at,
+                                Case {
+                                    phase: "release-role",
+                                    seed_name: format!("{name}:{pname}"),
+                                    seed: vec![],
+                                    ops: b.ops,
+                                    script: script.clone(),
+                                    default_policy: default,
+                                    refuse: vec![],
+                                    sticky: false,
+                                    loop_ops: vec![],
+                                    loop_max: 0,
+                                    post: vec![],
+                                    countdown,
+                                    countdown_brute: false,
+                                },
+                            ));
+                        }
+                    }
+                }
+            }
+        }
+    }
+    v
+}
+
 /// Run `c` with the allocator's release_checks countdown preset to `value` before operation `at`; every
 /// `validate_every`-th call also really ages the heap instead (brute force) and compares what every later
 /// operation returned and which kernel calls it made.  `strict`: a difference is a harness error.
@@ -1021,7 +1119,38 @@ pub fn placement(args: &Args) -> Report {
             r
         }));
     }
+    let n_role = release_role_cases().len();
+    let rsh = 8usize;
+    for sh in 0..rsh {
+        items.push(isolated(format!("release-role-{sh}"), move || {
+            let mut r = Report::new();
+            let mut w = World::new(dl);
+            for (i, (name, trigger_at, c)) in release_role_cases().into_iter().enumerate() {
+                if i % rsh != sh {
+                    continue;
+                }
+                r.eval();
+                r.nontrivial_unique();
+                let info = run_case(&mut w, &c, &mut r, false);
+                // the role is known by construction; what the kernel saw tells whether the pass released the segment there
+                let released = info.released_at.contains(&trigger_at);
+                r.outcome(&format!("{name}:{}", if released { "segment-released-by-the-pass" } else { "segment-kept" }));
+                if i % 101 == 0 {
+                    r.sample(c.to_json());
+                }
+            }
+            r
+        }));
+    }
     let mut r = run_isolated(items, &args.out, "C03");
+    for trigger in ["trim", "countdown"] {
+        for role in ["in-tree-bin", "is-dv"] {
+            let k = format!("release-pass({trigger}):wholly-free-older-segment-{role}:segment-released-by-the-pass");
+            if r.outcomes.get(&k).copied().unwrap_or(0) == 0 {
+                r.cap(format!("vacuity: never reached: {k}"));
+            }
+        }
+    }
     for j in junctions() {
         if r.outcomes.get(&format!("junction:{}", j.name)).copied().unwrap_or(0) == 0 {
             r.cap(format!("vacuity: junction kind {} never reached with the mapping joined to the segment", j.name));
@@ -1052,6 +1181,12 @@ pub fn placement(args: &Args) -> Report {
     );
     r.bound("multiseg_cases", n_multi);
     r.bound("junction_cases", n_junction);
+    r.bound("release_role_cases", n_role);
+    r.rule.push_str(&format!(
+        " (4) release-role family ({n_role} cases, each generated once): two or three mappings that do not touch (placement all-D, all-U, alternating); the older segment (first block 300 000 / 70 000 / 105 000 bytes) becomes wholly free and its chunk is {{in a tree bin | dv: a malloc(24 or 200) split it while small bins and dv were empty and was freed again | control: that small block \
+         still live}} when a release pass runs, triggered by {{freeing a 3 MiB block (trim threshold) | the release_checks countdown preset to 1 and a tree-binned free}}; then malloc 24, 40, \
+         200 000 in every order, everything freed; outcome classes name trigger, role and whether the kernel saw the segment released by that very operation."
+    ));
     r.bound("depth", depth);
     r.bound("sizes", json!(sizes));
     r.bound("policies", 5);
